@@ -386,8 +386,9 @@ impl<T: Printer + ?Sized> PrintHelper for T {
 
     fn print_variant(&mut self, v: &Variant) -> std::io::Result<usize> {
         match v {
-            Variant::VSingle(f) => self.print_number(f, *f >= 0.0),
-            Variant::VDouble(d) => self.print_number(d, *d >= 0.0),
+            // adding a positive zero turns a negative zero into 0: zero has no sign when printed
+            Variant::VSingle(f) => self.print_number(*f + 0.0, *f >= 0.0),
+            Variant::VDouble(d) => self.print_number(*d + 0.0, *d >= 0.0),
             Variant::VString(s) => self.print(s),
             Variant::VInteger(i) => self.print_number(i, *i >= 0),
             Variant::VLong(l) => self.print_number(l, *l >= 0),
